@@ -206,8 +206,8 @@ namespace {
         } else if (k == 3) {
           op["k"] = J("delete");
         } else {
-          static const char *apis[] = {"eval_file_cpp", "use_cpp", "use_script", "eval_file_script", "use_cpp", "use_script", "call_fn", "eval_file_cpp"};
-          op["k"] = J(apis[plan.below(8)]);
+          static const char *apis[] = {"eval_file_cpp", "use_cpp", "use_script", "eval_file_script", "use_cpp", "use_script", "call_fn", "eval_file_cpp", "use_abs", "eval_file_script_abs"};
+          op["k"] = J(apis[plan.below(10)]);
           if (with_faults && faults.chance(500)) {
             J rp = J::array();
             const int m = int(faults.range(1, 8));
@@ -354,6 +354,13 @@ namespace {
         } else if (k == "eval_file_script") {
           got = render(*real.e, [&]() { return real.e->eval("eval_file(\"" + name + "\")"); });
           want = render(*twin.e, [&]() { return twin.e->eval("eval_file(\"" + name + "\")"); });
+        } else if (k == "use_abs" || k == "eval_file_script_abs") {
+          // the file is named by its absolute path: every configured use path is a prefix that is put in
+          // front of the name, and no configured path is empty, so the lookup must fail whether or not the file exists
+          const bool is_use = k == "use_abs";
+          got = render(*real.e, [&]() { return is_use ? real.e->use(path) : real.e->eval("eval_file(\"" + path + "\")"); });
+          want = "!file_not_found_error|" + path;
+          r.counters["probe_lookup_by_absolute_name"] += 1;
         } else if (k == "call_fn") {
           const std::string s = "fn_" + std::to_string(op.at("f").num() % 5) + "_" + std::to_string(op.at("d").num() % 3) + "(1)";
           got = render(*real.e, [&]() { return real.e->eval(s); });
